@@ -119,7 +119,8 @@ class _Runner(_Processor):
                 # tasks which are already running use up the whole limit:
                 # give the message back and wait for the runner to be stopped
                 self._limiter.release()
-                await self._conn.message_broker.reject(key)
+                # shielded: this task is cancelled as soon as the runner is stopped
+                await asyncio.shield(self._conn.message_broker.reject(key))
                 await self.stop_consume_event.wait()
                 return
             t = asyncio.create_task(self._process_with_event(actor, key, payload, params))
